@@ -293,11 +293,9 @@ func Wrap[T ~string](str T, token string) T {
 
 // Unwrap a string with the specified token.
 func Unwrap[T ~string](str T, token string) T {
-	startToken := strings.Index(string(str), token)
-	endToken := strings.LastIndex(string(str), token)
-
-	if startToken == 0 && endToken <= len(str)-1 {
-		str = str[len(token):endToken]
+	if len(str) >= 2*len(token) &&
+		strings.HasPrefix(string(str), token) && strings.HasSuffix(string(str), token) {
+		str = str[len(token) : len(str)-len(token)]
 	}
 
 	return str
